@@ -75,7 +75,7 @@ def main():
         blob = b"".join(hashlib.sha256(b"%d-%d-%d" % (a.seed, i, j)).digest() for j in range(48))
         with open(os.path.join(a.work, "corpus", "seed%d" % i), "wb") as f:
             f.write(blob[: 256 * (1 + i % 4)])
-    atheris.Setup([sys.argv[0], "-runs=%d" % a.runs, "-seed=%d" % a.seed, "-max_len=2048", "-len_control=0", "-print_final_stats=1",
+    atheris.Setup([sys.argv[0], "-runs=%d" % a.runs, "-seed=%d" % a.seed, "-max_len=2048", "-len_control=0", "-print_final_stats=1", "-artifact_prefix=%s/" % a.work,
                    os.path.join(a.work, "corpus")], TestOneInput)
     dump()
     atheris.Fuzz()
